@@ -19,19 +19,45 @@ for m in schema.PyDataType:
     members.append((m.name, str(m)))
 expect(len(members) == 10, 'PyDataType has %d members' % len(members))
 
-src = textwrap.dedent(inspect.getsource(schema.English.singularize))
-fn = ast.parse(src).body[0]
-expect(isinstance(fn, ast.FunctionDef) and fn.name == 'singularize', 'singularize is not a plain function')
+# The three tables are literals somewhere in the source of class English: locals of singularize()
+# (pinned tree), class-level constants, or module-level constants.  Find them by name
+# (any spelling containing rule / uncountable / irregular), innermost scope first.
+def literal_tables(tree):
+    found = {}
+    for node in ast.walk(tree):
+        if isinstance(node, ast.Assign) and len(node.targets) == 1 and isinstance(node.targets[0], ast.Name):
+            name = node.targets[0].id.lower()
+        elif isinstance(node, ast.AnnAssign) and isinstance(node.target, ast.Name) and node.value is not None:
+            name = node.target.id.lower()
+        else:
+            continue
+        kind = ('uncountable_words' if 'uncountable' in name else 'irregular_words' if 'irregular' in name
+                else 'rules' if 'rule' in name else None)
+        if kind is None:
+            continue
+        try:
+            val = ast.literal_eval(node.value)
+        except (ValueError, SyntaxError):
+            continue        # e.g. `rules = English._SINGULAR_RULES`: an alias, not the literal
+        found.setdefault(kind, []).append(val)
+    return found
+
+scopes = [ast.parse(textwrap.dedent(inspect.getsource(schema.English.singularize))),
+          ast.parse(textwrap.dedent(inspect.getsource(schema.English))),
+          ast.parse(inspect.getsource(schema))]
 tables = {}
-for node in fn.body:
-    if isinstance(node, ast.Assign) and len(node.targets) == 1 and isinstance(node.targets[0], ast.Name):
-        name = node.targets[0].id
-        if name in ('rules', 'uncountable_words', 'irregular_words'):
-            tables[name] = ast.literal_eval(node.value)
+for tree in scopes:
+    for kind, vals in literal_tables(tree).items():
+        if kind not in tables:
+            expect(len(vals) == 1, 'several literal %s tables in one scope' % kind)
+            tables[kind] = vals[0]
 expect(set(tables) == {'rules', 'uncountable_words', 'irregular_words'}, 'singularize tables found: %r' % sorted(tables))
+# the function must still be driven by tables of this content: spot-check one word per table
+expect(schema.English.singularize('Sheep') == 'Sheep' and schema.English.singularize('Children') == 'Child'
+       and schema.English.singularize('Boxes') == 'Box', 'singularize does not behave like its tables')
 rules = tables['rules']
-expect(all(isinstance(r, list) and len(r) == 2 and all(isinstance(x, str) for x in r) for r in rules), 'rules shape')
-expect(all(isinstance(x, str) for x in tables['uncountable_words']), 'uncountable shape')
+expect(all(isinstance(r, (list, tuple)) and len(r) == 2 and all(isinstance(x, str) for x in r) for r in rules), 'rules shape')
+expect(isinstance(tables['uncountable_words'], (list, tuple, set, frozenset)) and all(isinstance(x, str) for x in tables['uncountable_words']), 'uncountable shape')
 expect(isinstance(tables['irregular_words'], dict), 'irregular shape')
 
 # does the out-file argument type create/truncate the file while the arguments are parsed? (F14a)
